@@ -52,8 +52,8 @@ class Graph:
         return False
 
 
-def make_case(seed, index, flavours=FLAVOURS):
-    rng = random.Random("%s:NEST:%d" % (seed, index))
+def make_case(seed, index, flavours=FLAVOURS, one_sided=False):
+    rng = random.Random("%s:NEST:%d:%s" % (seed, index, one_sided))
     names = W.Names(rng)
     cont = W.Contents(rng)
     flavour = flavours[index % len(flavours)]
@@ -86,7 +86,7 @@ def make_case(seed, index, flavours=FLAVOURS):
             i = g.o[i]["parent"]
         return True
     x = rng.randrange(2)            # folder owner: renames / moves folders
-    y = 1 - x                       # content owner: works inside them
+    y = x if one_sided else 1 - x   # content owner: works inside them (one_sided: the same user does both)
     ops = []
     gap = W.Gen(rng).gap
     for _ in range(rng.randrange(3, 9)):
@@ -159,8 +159,9 @@ def make_case(seed, index, flavours=FLAVOURS):
                 g.o[f]["parent"], g.o[f]["name"], g.o[f]["by"] = t, new, side
                 ops.append({"side": side, "k": "move_file", "obj": f, "to": t, "name": new})
         ops.extend({"step": e[0]} for e in gap(shape))
-    return {"family": "NEST", "flavour": flavour, "shape": shape, "bside": bside, "base_graph": base_graph, "ops": ops,
-            "expect": g.tree(), "index": index, "sim_seed": rng.getrandbits(32), "sched": [], "base": []}
+    return {"family": "NEST1" if one_sided else "NEST", "flavour": flavour, "shape": shape, "bside": bside,
+            "base_graph": base_graph, "ops": ops, "expect": g.tree(), "index": index, "sim_seed": rng.getrandbits(32),
+            "sched": [], "base": [], "one_sided": one_sided, "actor": x}
 
 
 def run_case(case, monitors=()):
@@ -190,9 +191,15 @@ def run_case(case, monitors=()):
                 oid[side][i] = info.oid
         sim.world.calls_base = len(sim.world.calls)
 
+        gr = Graph()                # running graph: where the (single) user has put things so far (one-sided cases)
+        gr.o = {int(i): dict(v) for i, v in case["base_graph"].items()}
+        one = bool(case.get("one_sided"))
+
         def cur_path(side, i):
             if i is None:
                 return sim.roots[side]
+            if one:
+                return sim.abspath(side, gr.path(i)) if i in gr.o else None
             info = sim.providers[side].info_oid(oid[side][i])
             return info.path if info else None
 
@@ -218,6 +225,22 @@ def run_case(case, monitors=()):
                         break
                     info = p.create(par.rstrip("/") + "/" + op["name"], io.BytesIO(op["data"]))
                     oid[side][op["obj"]] = info.oid
+                    gr.o[op["obj"]] = {"name": op["name"], "parent": op["parent"], "type": "file", "data": op["data"]}
+                elif one:
+                    cp = cur_path(side, op["obj"])
+                    info = p.info_path(cp)
+                    if info is None:
+                        probs.append(("harness: object not at its model path on the acting side", op, cp))
+                        break
+                    if k == "write":
+                        p.upload(info.oid, io.BytesIO(op["data"]))
+                    elif k in ("rename_file", "rename_dir"):
+                        p.rename(info.oid, cp.rsplit("/", 1)[0] + "/" + op["name"])
+                        gr.o[op["obj"]]["name"] = op["name"]
+                    elif k in ("move_file", "move_dir"):
+                        tp = cur_path(side, op["to"])
+                        p.rename(info.oid, tp.rstrip("/") + "/" + op["name"])
+                        gr.o[op["obj"]]["parent"], gr.o[op["obj"]]["name"] = op["to"], op["name"]
                 else:
                     if op["obj"] not in oid[side]:
                         # created on the other side and not yet known here: wait for it (bounded)
@@ -249,6 +272,10 @@ def run_case(case, monitors=()):
                 probs.append(("conflicted_artefact", cp[:3]))
         stats["steps"] = sim.steps
         stats["writes"] = len(O.engine_writes(sim, since=sim.world.calls_base))
+        if one:
+            ow = [c for c in O.engine_writes(sim, side=case["actor"], since=sim.world.calls_base) if c.get("ok") and c.get("ev")]
+            if ow and not any(str(q[0]).startswith("harness") for q in probs):
+                probs.append(("engine_write_on_origin_side", [O.brief_call(c) for c in ow[:2]]))
     except S.NotQuiescent as e:
         probs.append(("not_quiescent", str(e)))
     finally:
